@@ -236,7 +236,10 @@ Definition oracle_ok (min max : Z) (o : oracle) : Prop :=
 
 Inductive ctxkind := CtxCancel | CtxDeadline.
 (* errors as far as errors.Is sees them: a harness error with an identity, or one that Is context.Canceled/DeadlineExceeded *)
-Inductive err := EPlain (id : Z) | ECtx (k : ctxkind).
+(* [shape] says what the operation's error looks like (opaque, a common-error kind such as ErrTimeout, an os / syscall / net
+   error with Timeout() = true, wrapped, joined ...): data only — an error that is not a context error is handed through
+   whatever its shape. *)
+Inductive err := EPlain (id shape : Z) | ECtx (k : ctxkind).
 (* outcome of one invocation of fn; retriable = retryConditionFn(err) *)
 Inductive outcome := OSucc | ORetriable (e : err) | OFatal (e : err).
 Record attempt := mkAtt {
@@ -253,7 +256,7 @@ Definition convert (e : err) : result :=
   match e with
   | ECtx CtxCancel => RCancelled
   | ECtx CtxDeadline => RTimeout
-  | EPlain _ => RErr e
+  | EPlain _ _ => RErr e
   end.
 
 Record rcfg := mkCfg {
@@ -329,7 +332,7 @@ Inductive case :=
 
 Definition err_eqb (a b : err) : bool :=
   match a, b with
-  | EPlain x, EPlain y => x =? y
+  | EPlain x s, EPlain y s' => (x =? y) && (s =? s')
   | ECtx CtxCancel, ECtx CtxCancel | ECtx CtxDeadline, ECtx CtxDeadline => true
   | _, _ => false
   end.
